@@ -42,7 +42,7 @@ def simulate_script(
         res = engine.setup(script)
     
         if res == 1 :
-            raise Exception("Invalid option argument : \""+engine.get_option()+"\".")
+            raise Exception("Invalid option argument : \""+engine.option+"\".")
         elif res == 2 :
             raise Exception("Invalid boundary conditions.")
             
